@@ -16,7 +16,7 @@ ID = 'C14'
 LEVEL = 'model_checking'
 TECHNIQUE = ('bounded exhaustive enumeration of (program, start node, walk parameter combination, navigation API) on the real '
              'traversal code, compared with a reference pre/post-order built from CPython node sets and positions')
-LEVEL_TEXT = ('every start node of 600 programs (every node type incl. interleaved arguments, dict unpacking, decorators, type '
+LEVEL_TEXT = ('every start node of 761 programs (every node type incl. interleaved arguments, dict unpacking, decorators, type '
               'parameters, patterns, f-strings) x every combination of all/on/back/recurse/self_ and every step/next/prev/'
               'child/path API is executed and compared with the reference; nothing sampled')
 LEVEL_NOTE = 'trusted: CPython ast.walk / positions / tokenize; operator and computed-node order keys derived from operand positions'
